@@ -26,9 +26,9 @@ Inductive name :=
 | NSelf                          (* self *)
 | NType                          (* type *)
 | NSubtler                       (* __SUBTLER_TYPE *)
-| NOvld                          (* ___OVLD<id>: the function itself (ovld.dispatch) *)
-| NMap                           (* ___MAP<id>:  ovld.map *)
-| NCode.                         (* ___CODE<k>:  the rewritten method's code object *)
+| NOvld (i : nat)                (* ___OVLD<id>: the function with that id itself (ovld.dispatch) *)
+| NMap (i : nat)                 (* ___MAP<id>:  its table (ovld.map) *)
+| NCode (c : nat).               (* ___CODE<c>:  a rewritten method's code object *)
 
 Inductive const := CInt (z : Z) | CStr (s : nat) | CNone.
 
@@ -61,7 +61,8 @@ Definition name_eqb (a b : name) : bool :=
   match a, b with
   | NUser i, NUser j => Nat.eqb i j
   | NTmp n k, NTmp m l => Nat.eqb n m && tkey_eqb k l
-  | NSelf, NSelf | NType, NType | NSubtler, NSubtler | NOvld, NOvld | NMap, NMap | NCode, NCode => true
+  | NSelf, NSelf | NType, NType | NSubtler, NSubtler => true
+  | NOvld i, NOvld j | NMap i, NMap j | NCode i, NCode j => Nat.eqb i j
   | _, _ => false
   end.
 Definition is_tmp (x : name) : bool := match x with NTmp _ _ => true | _ => false end.
@@ -82,8 +83,10 @@ Definition subtle (an : anal) (k : tkey) : bool := existsb (tkey_eqb k) (a_compl
 (* parameters of one NameConverter run: the analysis and the two symbols found by _search_names
    (None = the method does not mention it; recode passes a falsy value then).  adapt_function hands recode only the
    FIRST name found that denotes the function (rec_syms[0]); [p_alias] lists the other names of the source that
-   denote it too (recurse under a second alias, the function's own name): the rewriter leaves them alone (KF-29). *)
-Record rwp := { p_anal : anal; p_rs : option nat; p_cs : option nat; p_alias : list nat }.
+   denote it too (recurse under a second alias, the function's own name): the rewriter leaves them alone (KF-29).
+   [p_id] is the id of the function the method is being adapted FOR (ovld.id: register_signature adapts every method,
+   inherited ones included, for the function being built); [p_code] the number drawn from recode's _current counter. *)
+Record rwp := { p_anal : anal; p_rs : option nat; p_cs : option nat; p_alias : list nat; p_id : nat; p_code : nat }.
 
 Definition is_sym (o : option nat) (i : nat) : bool := match o with Some j => Nat.eqb i j | None => false end.
 Definition is_alias (p : rwp) (x : name) : bool := match x with NUser i => existsb (Nat.eqb i) (p_alias p) | _ => false end.
@@ -97,7 +100,7 @@ Definition site (p : rwp) (f : expr) : option bool :=
 
 (* visit_Name (applies to every ast.Name: loads, := targets, comprehension targets) *)
 Definition rw_name (p : rwp) (x : name) : name :=
-  match x with NUser i => if is_sym (p_rs p) i then NOvld else x | _ => x end.
+  match x with NUser i => if is_sym (p_rs p) i then NOvld (p_id p) else x | _ => x end.
 
 Definition type_name (p : rwp) (k : tkey) : name := if subtle (p_anal p) k then NSubtler else NType.
 Definition kw_const (k : option nat) : const := match k with Some s => CStr s | None => CNone end.
@@ -113,7 +116,7 @@ Fixpoint tmp_kws (n : nat) (k : kws) : kws :=
 
 Definition self_arg (p : rwp) (a : args) : args :=
   if a_method (p_anal p) then ACons false (EName NSelf) a else a.
-Definition code_part (cn : bool) (ps : exprs) : exprs := if cn then ECons (EName NCode) ps else ps.
+Definition code_part (p : rwp) (cn : bool) (ps : exprs) : exprs := if cn then ECons (EName (NCode (p_code p))) ps else ps.
 
 Fixpoint rw (p : rwp) (k : nat) (e : expr) {struct e} : expr * nat :=
   match e with
@@ -130,7 +133,7 @@ Fixpoint rw (p : rwp) (k : nat) (e : expr) {struct e} : expr * nat :=
           (* tmp = f"__TMP{next(self.count)}_" is taken before the arguments are visited *)
           let '(pparts, k1) := rw_pos p k 0 (S k) ar in
           let '(kparts, k2) := rw_kwparts p k k1 kw in
-          (ECall (ESub (EName NMap) (ETuple (code_part cn (eapp pparts kparts))))
+          (ECall (ESub (EName (NMap (p_id p))) (ETuple (code_part p cn (eapp pparts kparts))))
                  (self_arg p (tmp_args k 0 ar)) (tmp_kws k kw), k2)
       | _, _ =>
           let '(f', k1) := rw p k f in
@@ -302,7 +305,7 @@ Definition kw_named_ok (p : rwp) (o : option nat) : bool :=
 Fixpoint dom (p : rwp) (e : expr) {struct e} : bool :=
   match e with
   | EConst _ => true
-  | EName x => mention_ok p x && negb (cs_name p x) && negb (a_method (p_anal p) && name_eqb (rw_name p x) NOvld && negb (name_eqb x NOvld))
+  | EName x => mention_ok p x && negb (cs_name p x) && negb (a_method (p_anal p) && name_eqb (rw_name p x) (NOvld (p_id p)) && negb (name_eqb x (NOvld (p_id p))))
   | EAttr e1 _ => dom p e1
   | EBin _ a b => dom p a && dom p b
   | EBool _ es => dom_list p es
@@ -389,7 +392,7 @@ Definition dom_stmt (p : rwp) (s : stmt) : bool :=
 Inductive sval := SInt (z : Z) | SStr (s : nat) | SNone | SBool (b : bool) | STy (t : nat) | SData (d : nat)
                 | SSeq (k : nat) (l : list sval).        (* k: 0 list, 1 tuple, 2 dict (items = 2-tuples) *)
 
-Inductive prim := PType | PSubtler | PRecurse | PCallNext | POvld | PMap | PCode | PUnusable.
+Inductive prim := PType | PSubtler | PRecurse | PCallNext | POvld (i : nat) | PMap (i : nat) | PCode (c : nat) | PUnusable.
 
 Inductive val :=
 | VInt (z : Z) | VStr (s : nat) | VNone | VBool (b : bool) | VTy (t : nat) | VData (d : nat)
@@ -403,7 +406,7 @@ Arguments Val {A} a. Arguments Raise {A} x.
 Definition res := outcome val.
 
 (* one component of a dispatch-table key *)
-Inductive kpart := KC | KP (t : nat) | KK (k : option nat) (t : nat).
+Inductive kpart := KC (c : nat) | KP (t : nat) | KK (k : option nat) (t : nat).      (* KC: the caller's code object (call_next) *)
 
 Fixpoint shape (v : val) : sval :=
   match v with
@@ -430,7 +433,7 @@ Section Sem.
 
   Variable p : rwp.
   Variable typeof : bool -> sval -> nat.               (* subtle? -> value -> type id:  subtler_type / type *)
-  Variable tbl : list kpart -> option sval.            (* the dispatch table: key -> callable (None = no method / ambiguous) *)
+  Variable tbl : nat -> list kpart -> option sval.     (* the dispatch table of each function (by id): key -> callable (None = no method / ambiguous) *)
   Variable callv : sval -> list sval -> list (nat * sval) -> W -> outcome sval * W * list event.   (* calling user code *)
   Variable binop : nat -> sval -> sval -> outcome sval.
   Variable getattr : sval -> nat -> outcome sval.
@@ -450,7 +453,7 @@ Section Sem.
   Definition genv (x : name) : option val :=
     match x with
     | NType => Some (VPrim PType) | NSubtler => Some (VPrim PSubtler)
-    | NOvld => Some (VPrim POvld) | NMap => Some (VPrim PMap) | NCode => Some (VPrim PCode)
+    | NOvld i => Some (VPrim (POvld i)) | NMap i => Some (VPrim (PMap i)) | NCode c => Some (VPrim (PCode c))
     | NSelf => if a_method an then Some (inj mself) else None
     | NUser i => if is_sym (p_cs p) i then Some (VPrim PCallNext)
                  else if is_sym (p_rs p) i then Some (VPrim PRecurse)
@@ -543,11 +546,11 @@ Section Sem.
   (* the documented meaning of recurse(ar..., kw...) / call_next(ar..., kw...): call the function (resp. the next method)
      for these arguments -- bind as the entry point does, key by the types of the arguments, look the table up,
      call the entry with [slf] prepended *)
-  Definition dispatch (pre : list kpart) (slf : list val) (ar : list val) (kw : list (nat * val)) (s : state) : res * state :=
+  Definition dispatch (nid : nat) (pre : list kpart) (slf : list val) (ar : list val) (kw : list (nat * val)) (s : state) : res * state :=
     match entry_bind ar kw with
     | None => (Raise XType, s)
     | Some (ar', kw') =>
-        match tbl (pre ++ pos_key 0 ar' ++ kw_key kw') with
+        match tbl nid (pre ++ pos_key 0 ar' ++ kw_key kw') with
         | None => (Raise XNoMethod, s)
         | Some c => call_user c (slf ++ ar') kw' s
         end
@@ -557,7 +560,7 @@ Section Sem.
   (* ___MAP[(...)]: the key tuple as the rewritten code builds it *)
   Definition key_part (v : val) : option kpart :=
     match v with
-    | VPrim PCode => Some KC
+    | VPrim (PCode c) => Some (KC c)
     | VPrim _ | VClos _ _ _ => None
     | _ => match shape v with
            | STy t => Some (KP t)
@@ -573,9 +576,9 @@ Section Sem.
     end.
   Definition subscript (v i : val) : res :=
     match v with
-    | VPrim PMap => match i with
+    | VPrim (PMap nid) => match i with
                     | VSeq 1 l => match key_of l with
-                                  | Some key => match tbl key with Some c => Val (inj c) | None => Raise XNoMethod end
+                                  | Some key => match tbl nid key with Some c => Val (inj c) | None => Raise XNoMethod end
                                   | None => Raise XType
                                   end
                     | _ => Raise XType
@@ -587,12 +590,12 @@ Section Sem.
     match q with
     | PType => match ar, kw with [v], [] => (Val (VTy (typeof false (shape v))), s) | _, _ => (Raise XType, s) end
     | PSubtler => match ar, kw with [v], [] => (Val (VTy (typeof true (shape v))), s) | _, _ => (Raise XType, s) end
-    | PRecurse => dispatch [] self_list ar kw s
-    | PCallNext => dispatch [KC] self_list ar kw s
-    | POvld => (* the function object itself: in a class it is unbound, its first argument is self *)
-        if a_method an then match ar with v :: r => dispatch [] [v] r kw s | [] => (Raise XType, s) end
-        else dispatch [] [] ar kw s
-    | PMap | PCode => (Raise XType, s)
+    | PRecurse => dispatch (p_id p) [] self_list ar kw s
+    | PCallNext => dispatch (p_id p) [KC (p_code p)] self_list ar kw s
+    | POvld i => (* the function object itself: in a class it is unbound, its first argument is self *)
+        if a_method an then match ar with v :: r => dispatch i [] [v] r kw s | [] => (Raise XType, s) end
+        else dispatch i [] [] ar kw s
+    | PMap _ | PCode _ => (Raise XType, s)
     | PUnusable => (Raise XUsage, s)
     end.
 
